@@ -27,6 +27,8 @@ def run(v, workdir, replay):
     v.need("replays_of_executed_in_block", 6)
     v.need("gapped_nonce_attempts", 3)
     v.need("successful_executions", 150)
+    v.need("nonfatal_failure_included_in_block", 5)
+    v.need("nonfatal_failure_after_other_actions_in_same_tx", 3)
 
 
 def nonce_of(v):
@@ -84,6 +86,10 @@ def check(v, hists):
                     v.violate("C03/replay-took-effect", "replayed bytes of a committed transaction executed successfully", wit)
             else:
                 v.saw("failed_executions")
+                if "non-fatal" in o.result and not o.trial:
+                    v.saw("nonfatal_failure_included_in_block")
+                    if nact >= 2:
+                        v.saw("nonfatal_failure_after_other_actions_in_same_tx")
                 oc = "panic" if o.result.startswith("panic") else "err"
                 dep_before = False
                 if intent.startswith("trial:fail_at:"):
